@@ -301,8 +301,9 @@ def ref_chunked(buf, pos=0):
         ext = b"" if semi < 0 else line[semi:]
         if not (size_f and all(c in HEX for c in size_f)):
             core = size_f.rstrip(WS)
-            if core and all(c in HEX for c in core):
-                # "3 ;x" is BWS, "3 " is not grammar but widely tolerated: either way a choice
+            if ext and core and all(c in HEX for c in core):
+                # "3 ;x": RFC 9112 7.1.1 chunk-ext = *( BWS ";" ...) lets a recipient parse and drop the
+                # bad whitespace before ";" -- a choice.  "3 " with no extension is simply not hexadecimal.
                 lenient.append("size-trailing-ws")
                 size_f = core
             else:
